@@ -190,9 +190,9 @@ Definition route_ops (url_ok : bytes -> bool) : tops route route :=
      t_default := [];
      t_eqb := route_eqb |}.
 
-(* CanonicalPath is not idempotent ("/a /b/.." -> "/a " -> "/a"); a pattern it
-   maps to something it would change again is re-canonicalised by the restart.
-   The theorems about routes carry this guard (known finding). *)
+(* Reset runs init (CanonicalPath) again on loaded entries, so a stored pattern must be stable
+   under it.  Before the repair of CanonicalPath ("/a /b/.." -> "/a " -> "/a") this was a guard
+   of the route theorems; now it holds for every pattern (C18TableProofs.canon_stable_all). *)
 Definition canon_stable (p : bytes) : bool :=
   bytes_eqb (canonical_path (canonical_path p)) (canonical_path p).
 
